@@ -43,12 +43,13 @@ def gen_history(t, nops, pool, dimsets, link, bulk_big=False, removes=True, big_
       ['store', coord, dims, payload]            ['store_many', dims, [[coord, payload], ...]]
       ['load', coord, dims]                      ['load_many', dims, [coord, ...], n_filler]
       ['is_cached', coord, dims]                 ['remove', coord, dims]
-      ['reopen']
+      ['reopen']                                 ['switch']  (go on through a second cache object on the same store)
     """
     ops = []
     for _ in range(nops):
         k = t.weighted([('store', 6), ('store_many', 3), ('load', 2), ('load_many', 3), ('is_cached', 1),
-                        ('remove', 2 if removes else 0), ('reopen', 1), ('remove_many', 1 if removes else 0), ('load_meta', 1)])
+                        ('remove', 2 if removes else 0), ('reopen', 1), ('remove_many', 1 if removes else 0), ('load_meta', 1),
+                        ('switch', 2)])
         d = t.pick(dimsets)
         if k == 'store':
             ops.append(['store', t.pick(pool), d, gen_payload(t, link, big_payloads)])
@@ -70,6 +71,8 @@ def gen_history(t, nops, pool, dimsets, link, bulk_big=False, removes=True, big_
             ops.append(['remove_many', d, _distinct(t, pool, t.randint(2, 4))])
         elif k == 'load_meta':
             ops.append(['load_meta', t.pick(pool), d])
+        elif k == 'switch':
+            ops.append(['switch'])
         else:
             ops.append(['reopen'])
     return ops
@@ -140,6 +143,8 @@ class Runner(object):
         self.b = backend
         self.make = make_cache
         self.cache = make_cache()
+        self.handles = [self.cache, None]   # two cache objects on the same store (two processes' views), used alternately
+        self.cur = 0
         self.model = {}
         self.pool = pool
         self.dimsets = dimsets
@@ -291,7 +296,14 @@ class Runner(object):
         elif kind == 'reopen':
             if hasattr(cache, 'cleanup'):
                 cache.cleanup()
-            self.cache = self.make()
+            self.cache = self.handles[self.cur] = self.make()
+            self.sweep(what)
+        elif kind == 'switch':
+            # continue through the other cache object; the first one stays open (an idle worker of another process)
+            self.cur ^= 1
+            if self.handles[self.cur] is None:
+                self.handles[self.cur] = self.make()
+            self.cache = self.handles[self.cur]
             self.sweep(what)
         else:
             raise ValueError(op)
